@@ -166,8 +166,8 @@ impl ClassVisitor for RecClass {
 	fn visit_signature(&mut self, x: ClassSignature) -> Result<()> { self.evs.push(attr("Signature", format!("{x:?}"))); Ok(()) }
 	fn visit_source_file(&mut self, x: JavaString) -> Result<()> { self.evs.push(attr("SourceFile", format!("{x:?}"))); Ok(()) }
 	fn visit_source_debug_extension(&mut self, x: JavaString) -> Result<()> {
-		// the reader hands over the attribute's bytes decoded as a string; for ASCII the code points are the bytes
-		let raw = if x.chars().all(|c| c.as_u32() < 128) { Some(x.chars().map(|c| c.as_u32() as u8).collect()) } else { None };
+		// the reader hands over the attribute's bytes decoded from modified UTF-8; re-encoding gives the bytes back
+		let raw = Some(x.to_modified_utf8().into_owned());
 		self.evs.push(Ev::Attr { name: "SourceDebugExtension".into(), raw, content: format!("{x:?}") });
 		Ok(())
 	}
